@@ -378,13 +378,19 @@ SendEv(sm, qm, e) ==
 (* C03  entitlement of every transmitted symbol.                           *)
 (***************************************************************************)
 LostCap == LockCfg + 1
-TxInit == [role |-> "idle", prevSyn |-> FALSE, lastTx |-> 999, lostSyn |-> LostCap, need |-> 0, silence |-> 0, await |-> FALSE, bad |-> ""]
+(* "its SYN generation interval": a stand-by generator waits an address dependent time (10 ms per master number on top of the  *)
+(* SYN timeout of 51 ms) so that stand-by generators do not collide; once it has generated a SYN that came back it is the      *)
+(* acting generator with the nominal AUTO-SYN interval                                                                         *)
+StandbyInterval == 10 * MasterNumber(Cfg.own) + 51
+TxInit == [role |-> "idle", prevSyn |-> FALSE, lastTx |-> 999, lostSyn |-> LostCap, need |-> 0, silence |-> 0, await |-> FALSE,
+           acting |-> FALSE, bad |-> ""]
+SynNeed(tm) == IF tm.acting THEN SynInterval ELSE StandbyInterval
 TxFail(tm, sig) == IF tm.bad = "" /\ sig \notin Muted THEN [tm EXCEPT !.bad = sig] ELSE tm
 
 TxTx(tm, rm, am, qm, b) ==
   LET t == [tm EXCEPT !.lastTx = b, !.prevSyn = FALSE, !.await = TRUE] IN
   IF Cfg.readonly = 1 THEN TxFail(t, "C03:transmission-in-read-only-mode")
-  ELSE IF b = SYN /\ Cfg.gensyn = 1 /\ tm.silence >= SynInterval /\ tm.role # "own"                                    \* (d)
+  ELSE IF b = SYN /\ Cfg.gensyn = 1 /\ tm.silence >= SynNeed(tm) /\ tm.role # "own"                                    \* (d)
        THEN [t EXCEPT !.role = "autosyn", !.need = IF tm.need > 2 THEN 2 ELSE tm.need]   \* an idle bus observed as SYN generator: only the explicit "one further SYN" remains demanded
   ELSE IF tm.role = "own" THEN t                                                                \* (b), byte value is C02's
   ELSE IF tm.role = "answer" THEN t                                                             \* (c) continued, value is C15's
@@ -400,7 +406,8 @@ TxTx(tm, rm, am, qm, b) ==
 
 TxRx(tm, sym, org) ==
   LET t == [tm EXCEPT !.silence = 0, !.await = FALSE] IN
-  IF sym = SYN THEN [t EXCEPT !.role = "idle", !.prevSyn = TRUE, !.lostSyn = Cap(tm.lostSyn + 1, LostCap)]
+  IF sym = SYN THEN [t EXCEPT !.role = "idle", !.prevSyn = TRUE, !.lostSyn = Cap(tm.lostSyn + 1, LostCap),
+                              !.acting = tm.acting \/ (tm.role = "autosyn" /\ tm.await)]
   ELSE LET u == [t EXCEPT !.prevSyn = FALSE] IN
   IF tm.role = "arb" THEN
        IF sym = tm.lastTx THEN [u EXCEPT !.role = "own"]
@@ -413,7 +420,7 @@ TxRx(tm, sym, org) ==
 TxEv(tm, rm, am, qm, e) ==
   CASE e[1] = "tx" -> TxTx(tm, rm, am, qm, e[2])
     [] e[1] = "rx" -> TxRx(tm, e[2], e[3])
-    [] e[1] = "to" -> [tm EXCEPT !.silence = IF Cfg.gensyn = 1 THEN Cap(tm.silence + e[3], SynInterval) ELSE 0,
+    [] e[1] = "to" -> [tm EXCEPT !.silence = IF Cfg.gensyn = 1 THEN Cap(tm.silence + e[3], SynNeed(tm)) ELSE 0,
                                  !.prevSyn = FALSE, !.await = FALSE,
                                  !.role = IF tm.role \in {"own", "answer", "arb", "autosyn"} THEN "mute" ELSE tm.role]
     [] e[1] \in {"err", "close"} -> [tm EXCEPT !.prevSyn = FALSE, !.await = FALSE,
